@@ -259,6 +259,7 @@ type Set struct {
 	Name         string `json:"name"`
 	Members      []Ref  `json:"members"`
 	InInjectFile bool   `json:"in_inject_file,omitempty"`
+	Inline       bool   `json:"inline,omitempty"` // written as wire.NewSet(...) wherever referenced
 }
 
 // Param is an injector parameter.
